@@ -99,6 +99,50 @@ def json_schema(rng: Rng, n_defs: int | None = None) -> dict:
     return root
 
 
+# property NAME → a schema whose generated type (or a typing helper it needs) is imported under exactly that name
+SHADOW = {
+    "date": {"type": "string", "format": "date"},
+    "datetime": {"type": "string", "format": "date-time"},
+    "time": {"type": "string", "format": "time"},
+    "timedelta": {"type": "string", "format": "duration"},
+    "UUID": {"type": "string", "format": "uuid"},
+    "Decimal": {"type": "string", "format": "decimal"},
+    "Path": {"type": "string", "format": "path"},
+    "IPv4Address": {"type": "string", "format": "ipv4"},
+    "IPv6Address": {"type": "string", "format": "ipv6"},
+    "AnyUrl": {"type": "string", "format": "uri"},
+    "EmailStr": {"type": "string", "format": "email"},
+    "SecretStr": {"type": "string", "format": "password"},
+    "Any": {},
+    "Dict": {"type": "object", "additionalProperties": {"type": "string"}},
+    "List": {"type": "array", "items": {"type": "integer"}},
+    "Optional": {"type": "string"},
+    "Union": {"oneOf": [{"type": "integer"}, {"type": "string"}]},
+    "Literal": {"const": "x"},
+    "constr": {"type": "string", "pattern": "^a+$"},
+    "conint": {"type": "integer", "minimum": 1},
+    "Field": {"type": "integer", "description": "d"},
+    "Enum": {"type": "string", "enum": ["a", "b"]},
+    "Annotated": {"type": "integer", "minimum": 0},
+    "Set": {"type": "array", "items": {"type": "string"}, "uniqueItems": True},
+}
+
+
+def json_schema_shadow(rng: Rng, k: int | None = None) -> dict:
+    """a document whose property names EQUAL the names under which their types are imported (`date: date`, `UUID: UUID`, …):
+    this is what makes the generator alias the import (`from datetime import date as date_aliased`)"""
+    names = rng.sample(sorted(SHADOW), k or rng.range(2, 6))
+    props = {n: dict(SHADOW[n]) for n in names}
+    return {"title": "Shadow", "type": "object", "properties": props, "required": [n for n in names if rng.chance(1, 2)]}
+
+
+def json_schema_plain_types(rng: Rng, k: int | None = None) -> dict:
+    """the same types under ordinary property names: the observer for anything an earlier run left in shared objects"""
+    names = rng.sample(sorted(SHADOW), k or rng.range(4, 9))
+    props = {f"p_{i}_{n.lower()}": dict(SHADOW[n]) for i, n in enumerate(names)}
+    return {"title": "Plain", "type": "object", "properties": props, "required": [p for p in props if rng.chance(1, 2)]}
+
+
 def schema_dir(rng: Rng) -> dict[str, str]:
     """relative path → text of a directory input: several schema files, cross-file $refs, sub-directories,
     and (sometimes) two files with the same basename in different directories"""
